@@ -145,7 +145,11 @@ func init() {
 	}
 	topHelpers["ItemCollection.Append"] = func(it ap.Item) (string, string) {
 		c := ap.ItemCollection{validNote()}
-		return errClass(c.Append(it)), "none"
+		cl := errClass(c.Append(it))
+		if len(c) != 1 {
+			cl = "grew" // appending nothing must not add a member
+		}
+		return cl, "none"
 	}
 	topHelpers["ItemCollection.Remove"] = func(it ap.Item) (string, string) {
 		c := ap.ItemCollection{validNote(), ap.IRI("https://example.com/x")}
@@ -157,7 +161,11 @@ func init() {
 	}
 	topHelpers["IRIs.Append"] = func(it ap.Item) (string, string) {
 		c := ap.IRIs{"https://example.com/x"}
-		return errClass(c.Append(it)), "none"
+		cl := errClass(c.Append(it))
+		if len(c) != 1 {
+			cl = "grew"
+		}
+		return cl, "none"
 	}
 	topHelpers["Collection.Contains"] = func(it ap.Item) (string, string) {
 		c := ap.Collection{ID: "https://example.com/c", Type: ap.CollectionType, Items: ap.ItemCollection{validNote()}}
@@ -165,7 +173,24 @@ func init() {
 	}
 	topHelpers["OrderedCollection.Append"] = func(it ap.Item) (string, string) {
 		c := ap.OrderedCollection{ID: "https://example.com/c", Type: ap.OrderedCollectionType, OrderedItems: ap.ItemCollection{validNote()}}
-		return errClass(c.Append(it)), "none"
+		cl := errClass(c.Append(it))
+		if c.Count() != 1 {
+			cl = "grew"
+		}
+		return cl, "none"
+	}
+	topHelpers["Collection.Append"] = func(it ap.Item) (string, string) {
+		c := ap.Collection{ID: "https://example.com/c", Type: ap.CollectionType, Items: ap.ItemCollection{validNote()}}
+		cl := errClass(c.Append(it))
+		if c.Count() != 1 {
+			cl = "grew"
+		}
+		return cl, "none"
+	}
+	topHelpers["JSONWriteIRIProp"] = func(it ap.Item) (string, string) {
+		b := []byte{'{'}
+		ap.JSONWriteIRIProp(&b, "x", it)
+		return "neutral", "none"
 	}
 	topHelpers["CopyItemProperties-to"] = func(it ap.Item) (string, string) {
 		_, err := ap.CopyItemProperties(it, validNote())
